@@ -232,6 +232,8 @@ type entrySpec struct {
 	KidSource string `json:"kid_source"` // explicit (X-Key-ID) | cert-ski | derived (RFC 3280 SHA-1 of the SPKI)
 	PEMType   string `json:"pem_type"`   // pkcs1 | sec1 | pkcs8 | pkcs8-encrypted
 	Chain     int    `json:"chain_len"`
+	// the key of the previous generation's active entry under another id
+	Relabelled bool `json:"relabelled_key_of_previous_generation,omitempty"`
 
 	key   crypto.Signer
 	pub   crypto.PublicKey
@@ -322,6 +324,10 @@ type storeOpts struct {
 	// ActiveNotAfter (certificates have a validity window; the process may outlive it)
 	ActiveChain    int
 	ActiveNotAfter time.Time
+	// Relabel != nil: the active entry is the KEY of that entry (the active one of the previous generation) under
+	// another id - the id of an entry is not a function of the key material (X-Key-ID header added / renamed / removed,
+	// certificate with a subject key identifier of its own added / removed). Only without StableKid.
+	Relabel *entrySpec
 }
 
 // buildStore creates one key-store generation.
@@ -339,7 +345,13 @@ func buildStore(idx int, o storeOpts, pk *keyPicker, ca *caSet, rng *mrand.Rand)
 	var blocks []*pem.Block
 	var certBlocks []*pem.Block
 	for e := 0; e < n; e++ {
-		k := pk.pick(o.Prefer)
+		var k *poolKey
+		relabel := o.Relabel != nil && stablePos < 0 && e == g.Active
+		if relabel {
+			k = &poolKey{Kind: o.Relabel.Kind, Key: o.Relabel.key}
+		} else {
+			k = pk.pick(o.Prefer)
+		}
 		if k == nil {
 			return nil, fmt.Errorf("key pool exhausted")
 		}
@@ -392,6 +404,12 @@ func buildStore(idx int, o storeOpts, pk *keyPicker, ca *caSet, rng *mrand.Rand)
 			es.Kid, es.KidSource = hex.EncodeToString(ski), "cert-ski"
 		default:
 			es.Kid, es.KidSource = derivedKid(es.pub), "derived"
+		}
+		if relabel && es.Kid == o.Relabel.Kid {
+			es.Kid, es.KidSource = fmt.Sprintf("%s-e%d", o.Tag, e), "explicit" // derived id before and after: rename it
+		}
+		if relabel {
+			es.Relabelled = true
 		}
 		if es.KidSource == "explicit" {
 			hdr["X-Key-ID"] = es.Kid
